@@ -38,6 +38,11 @@ func concOps() []cop {
 		{"walk", memfs.ClassRead, "Walk", 'd', 'u', false, func(p *rawpeer.Peer, tag uint16, fid, aux uint64, ch string) {
 			p.Send(wire.Twalk, tag, fid, u(900+uint64(tag)), []string{ch})
 		}},
+		// a two-component walk parked in its SECOND step: the call is made on
+		// the File of the intermediate directory (child of the target)
+		{"walk2", memfs.ClassRead, "Walk", 'd', 'u', false, func(p *rawpeer.Peer, tag uint16, fid, aux uint64, ch string) {
+			p.Send(wire.Twalk, tag, fid, u(900+uint64(tag)), []string{"b", "f"})
+		}},
 		{"clone", memfs.ClassRead, "Walk", '*', 'u', false, func(p *rawpeer.Peer, tag uint16, fid, aux uint64, ch string) {
 			p.Send(wire.Twalk, tag, fid, u(900+uint64(tag)), []string{})
 		}},
@@ -201,9 +206,13 @@ var (
 	tgtUF = ctarget{"/d/x", false, false, ""}
 	tgtL  = ctarget{"/a/l", false, true, ""}
 	tgtR  = ctarget{"/", true, false, "f"}
+	tgtDB = ctarget{"/a/b", true, false, "f"} // the directory child of tgtD
 )
 
 func (o cop) fits(t ctarget) bool {
+	if o.name == "walk2" && t.path != "/a" && !strings.HasSuffix(t.path, "/mv-a") {
+		return false // needs the subtree b/f below its target
+	}
 	switch o.kind {
 	case 'd':
 		return t.dir
@@ -312,6 +321,8 @@ func rendezvousAfter(c *ev.Ctx, w *concWorld, a cop, ta ctarget, b cop, tb ctarg
 			return cl.Args == "" && cl.Path == ta.path
 		case "walk":
 			return cl.Args != "" && cl.Path == ta.path
+		case "walk2":
+			return cl.Args != "" && cl.Path == ta.path+"/b"
 		}
 		return cl.Path == ta.path
 	}}, 1)
